@@ -175,11 +175,14 @@ def _replay_walk(inp):
             for root, folders, files in FolderIO(d).walk():
                 visited.append(_os.path.relpath(root.path, d))
                 folders[:] = [f for f in folders if _os.path.basename(f.path) not in drop]
-            return sorted(visited)
+            return visited
         out = run_real(run)
-        exp = ['.'] + [nm for nm in names if nm not in drop]
-        exp += [_os.path.join(nm, 'inner') for nm in names if nm not in drop and 'inner' not in drop]
-        return {'EXPECTED': sorted(exp)}, out
+        # oracle: os.walk itself, pruned the documented way - same folders in the same (directory listing) order
+        exp = []
+        for root, dirs, files in _os.walk(d):
+            exp.append(_os.path.relpath(root, d))
+            dirs[:] = [x for x in dirs if x not in drop]
+        return {'EXPECTED': exp}, out
     finally:
         shutil.rmtree(d, ignore_errors=True)
 
